@@ -5,7 +5,7 @@
     even cyclic), any callback behaviours — so in particular for every state reachable by a program. *)
 From Coq Require Import List Arith ZArith Bool.
 From TwLib Require Import DeferredK DeferredKFacts.
-From C01 Require Import Model Proofs.
+From C01 Require Import Model Proofs Order.
 Import ListNotations.
 
 (** the loop computes an outcome the interpreter predicts: same final heap (results, pending callbacks, pause
@@ -54,3 +54,30 @@ Theorem f1_program_outcomes :
       /\ run_ids (concat (snd (run_program true f1_program))) = [0; 1]).
 Proof. split; [exact f1_pinned | exact f1_repaired]. Qed.
 Print Assumptions f1_program_outcomes.
+
+(** FIFO within one run of the loop, for every heap: each Deferred's queue of user callbacks loses a prefix, and
+    the callbacks of that Deferred that were called are a subsequence of that prefix, in queue order (a callback
+    leaves the queue uncalled only when the pair had no function on the side taken: pass-through) *)
+Theorem loop_runs_callbacks_in_queue_order : forall h d x,
+  exists rem,
+    pending_at h x = rem ++ pending_at (fst (runCallbacks true h d)) x
+    /\ Sub (run_ids_of x (snd (runCallbacks true h d))) rem.
+Proof. intros h d x. exact (runCallbacks_Q h d x). Qed.
+Print Assumptions loop_runs_callbacks_in_queue_order.
+
+(** for EVERY program (any Deferreds, cancellers, operations incl. pause/unpause/cancel, any length) and every
+    Deferred x: the ids of the add-operations on x, in program order, split into a prefix [rem] and exactly the
+    callbacks still pending on x at the end; the callbacks of x that ran, in the order they ran, are a
+    subsequence of [rem]: added order is run order, nothing runs that was not added, nothing pending has run *)
+Theorem callbacks_in_added_order : forall cs ops x,
+  let r := run_program true (cs, ops) in
+  exists rem,
+    added_ids (length cs) x ops 0 = rem ++ pending_at (heap_of (fst r)) x
+    /\ Sub (run_ids_of x (concat (snd r))) rem.
+Proof. exact program_order. Qed.
+Print Assumptions callbacks_in_added_order.
+
+Theorem each_callback_at_most_once : forall cs ops x,
+  NoDup (run_ids_of x (concat (snd (run_program true (cs, ops))))).
+Proof. exact program_at_most_once. Qed.
+Print Assumptions each_callback_at_most_once.
